@@ -65,20 +65,22 @@ class Normalizer:
         return e
 
     def sign(self, f):
-        """+1 / -1 / 0 (unknown) under the hypotheses"""
+        """+1 / -1 / 0 (unknown) under the hypotheses.  A factor that is non-negative for structural reasons (sum of squares)
+        counts as positive: identities are proved on the open dense set where no radicand / denominator vanishes."""
         if f.is_positive: return 1
         if f.is_negative: return -1
         if f in self.signcache: return self.signcache[f]
         o = self.orig(f)
         r = 0
-        if o.is_positive: r = 1
-        elif o.is_negative: r = -1
+        if o.is_positive or (o.is_nonnegative and not o.is_zero): r = 1
+        elif o.is_negative or (o.is_nonpositive and not o.is_zero): r = -1
         else:
-            ok, _ = smt.valid(self.hyps, o > 0, self.smt_timeout)
-            if ok: r = 1
-            else:
-                ok, _ = smt.valid(self.hyps, o < 0, self.smt_timeout)
-                if ok: r = -1
+            for hy, to in (([], 300), (self.hyps, self.smt_timeout)):
+                ok, _ = smt.valid(hy, o > 0, to)
+                if ok: r = 1; break
+                ok, _ = smt.valid(hy, o < 0, to)
+                if ok: r = -1; break
+                if not self.hyps: break
         self.signcache[f] = r
         return r
 
@@ -197,6 +199,7 @@ class Normalizer:
         if e.is_Pow:
             b, x = e.args
             if b == sp.E: return self.nexp(x)
+            if x.is_Integer and isinstance(b, sp.Abs) and int(x) % 2 == 0: return self.norm(b.args[0]) ** x
             if x.is_Integer: return self.norm(b) ** x
             nb = self.norm(b)
             if nb.is_Rational and nb > 0: return self.numpow(nb, x)
@@ -241,16 +244,50 @@ class Normalizer:
             return self.fsym(ce)
         raise Undecided('cannot normalise %r' % (e,))
 
+    def canon_mono(self, m):
+        """monomial in symbols and power atoms -> canonical product (power atoms of one base merged)"""
+        coeff = sp.Integer(1); gp = {}; rest = sp.Integer(1)
+        for f in sp.Mul.make_args(m):
+            b, k = f.as_base_exp()
+            if isinstance(b, GP) and k.is_Integer: gp[b.args[0]] = gp.get(b.args[0], 0) + k * b.args[1]
+            elif f.is_Rational: coeff = coeff * f
+            else: rest = rest * f
+        for b in sorted(gp, key=sp.default_sort_key):
+            x = sp.cancel(sp.together(gp[b]))
+            if x == 0: continue
+            rest = rest * (b ** x if (x.is_Integer and b.is_Symbol and b not in self.defs) else GP(b, x))
+        return coeff, rest
+
+    def canon_arg(self, arg):
+        """function argument -> list of (rational coefficient, canonical monomial / canonical denominator)"""
+        N = self.norm(arg)
+        gps = sorted(N.atoms(GP), key=sp.default_sort_key)
+        tmp = {g: sp.Dummy('q%d' % i, positive=True) for i, g in enumerate(gps)}
+        n, d = sp.fraction(sp.cancel(sp.together(N.xreplace(tmp))))
+        cont, d = sp.expand(d).as_content_primitive()
+        if d.could_extract_minus_sign(): d = -d; cont = -cont
+        inv = {v: k for k, v in tmp.items()}
+        n = sp.expand(n / cont); d = sp.expand(d)
+        out = {}
+        for term in sp.Add.make_args(n):
+            if term == 0: continue
+            tn, td = sp.fraction(sp.cancel(term / d))          # each term reduced on its own
+            c1, td = sp.expand(td).as_content_primitive()
+            if td.could_extract_minus_sign(): td = -td; c1 = -c1
+            c, m = self.canon_mono(sp.expand(tn).xreplace(inv))
+            td = td.xreplace(inv)
+            if not td.is_Add:
+                c2, m2 = self.canon_mono(m / td); c = c * c2; m = m2
+            else:
+                m = m / td
+            c = c / c1
+            out[m] = out.get(m, 0) + c
+        return [(c, m) for m, c in sorted(out.items(), key=lambda kv: sp.default_sort_key(kv[0])) if c != 0]
+
     def nexp(self, arg):
-        arg = sp.expand(sp.cancel(sp.together(arg)))
         self.laws.add('exp(a+b)=exp(a)exp(b)')
         r = sp.Integer(1)
-        for t in sp.Add.make_args(arg):
-            c, m = t.as_coeff_Mul()
-            if t == 0: continue
-            if m == 1:
-                r = r * GP(self.expatom(sp.Integer(1)), c); continue
-            if m.could_extract_minus_sign(): c, m = -c, -m
+        for c, m in self.canon_arg(arg):
             r = r * GP(self.expatom(m), c)
         return r
 
@@ -280,11 +317,13 @@ class Normalizer:
             return self.fsym(sp.log(self.cargs(arg)))
 
     def ntrig(self, e):
-        a = sp.expand(sp.cancel(sp.together(e.args[0])))
-        neg = a.could_extract_minus_sign()
-        if neg: a = -a
+        terms = self.canon_arg(e.args[0])
+        if not terms: return sp.Integer(0) if isinstance(e, sp.sin) else sp.Integer(1)
+        neg = terms[0][0] < 0
+        if neg: terms = [(-c, m) for c, m in terms]
+        a = sp.Add(*[c * m for c, m in terms])
         if a not in self.trig:
-            S = self.new('S', sp.sin(a), real=True); C = self.new('C', sp.cos(a), real=True)
+            S = self.new('S', sp.sin(self.orig(a)), real=True); C = self.new('C', sp.cos(self.orig(a)), real=True)
             self.trig[a] = (S, C)
         S, C = self.trig[a]
         if isinstance(e, sp.sin): return -S if neg else S
@@ -518,8 +557,60 @@ def eval_cond(c, pt):
         if not d.is_number: raise ValueError('non-numeric condition')
         if not d.is_real: d = sp.re(d)
         op = c.rel_op
-        return {'<': d < 0, '<=': d <= 0, '>': d > 0, '>=': d >= 0, '==': d == 0, '!=': d != 0}[op]
+        if op in ('==', '!='):
+            # equality at 30 digits: zero up to evaluation noise
+            sc_ = abs(numeric(c.lhs, pt, 30)) + abs(numeric(c.rhs, pt, 30)) + sp.Float('1e-30')
+            z = bool(abs(d) <= sp.Float('1e-22') * sc_)
+            return z if op == '==' else not z
+        return {'<': d < 0, '<=': d <= 0, '>': d > 0, '>=': d >= 0}[op]
     raise ValueError('cannot evaluate %r' % (c,))
+
+
+def _fast_cond(c, syms):
+    """compile a sympy boolean to a float predicate (None when it cannot be compiled); used only to pre-filter samples"""
+    import math
+    if c is True or c is sp.true: return lambda v: True
+    if c is False or c is sp.false: return lambda v: False
+    if isinstance(c, (sp.And, sp.Or)):
+        fs = [_fast_cond(a, syms) for a in c.args]
+        if any(f is None for f in fs): return None
+        return (lambda v: all(f(v) for f in fs)) if isinstance(c, sp.And) else (lambda v: any(f(v) for f in fs))
+    if isinstance(c, sp.Not):
+        f = _fast_cond(c.args[0], syms)
+        return None if f is None else (lambda v: not f(v))
+    if isinstance(c, sp.Basic) and c.is_Relational:
+        try:
+            g = sp.lambdify(syms, c.lhs - c.rhs, modules=['math'])
+        except Exception:
+            return None
+        op = c.rel_op
+        def f(v):
+            try:
+                d = g(*v)
+                if isinstance(d, complex): return False
+                if d != d: return False
+            except (ValueError, ZeroDivisionError, OverflowError, TypeError):
+                return False
+            m = 1e-9
+            return {'<': d < m, '<=': d <= m, '>': d > -m, '>=': d >= -m, '==': abs(d) <= 1e-7, '!=': True}[op]
+        return f
+    return None
+
+
+def _bounds_plan(symbols, hyps):
+    """hypotheses of the form  s >= e / s > e / s <= e / s < e  with s a bare symbol not occurring in e:
+    sample the other symbols first and place s on the right side of its bound (raises the acceptance rate of rejection sampling)"""
+    plan = {}
+    for h in hyps:
+        if not (isinstance(h, sp.Basic) and h.is_Relational) or h.rel_op in ('==', '!='): continue
+        for a, b, flip in ((h.lhs, h.rhs, False), (h.rhs, h.lhs, True)):
+            if a.is_Symbol and a in symbols and a not in b.free_symbols and a not in plan and not b.free_symbols & set(plan):
+                op = h.rel_op
+                if flip: op = {'<': '>', '<=': '>=', '>': '<', '>=': '<='}[op]
+                if b.free_symbols:      # constant bounds are handled well enough by the default ranges
+                    plan[a] = (op, b)
+                break
+    return plan
 
 
 def sample_points(symbols, hyps, n, seed=0, witness=None, tries=4000, ranges=None):
@@ -529,11 +620,14 @@ def sample_points(symbols, hyps, n, seed=0, witness=None, tries=4000, ranges=Non
     if witness: pts.append(dict(witness))
     hyps = [concretize(h) if isinstance(h, sp.Basic) and not isinstance(h, sp.Symbol) and h.atoms(sp.core.function.AppliedUndef) else h for h in hyps]
     symbols = sorted(symbols, key=lambda s: s.name)
-    k = 0
-    while len(pts) < n and k < tries:
+    plan = _bounds_plan(set(symbols), hyps)
+    fast = [_fast_cond(h, symbols) for h in hyps]
+    k = 0; t_end = time.time() + (30 if tries <= 4000 else 90)
+    while len(pts) < n and k < tries and time.time() < t_end:
         k += 1
         pt = {}
         for s in symbols:
+            if s in plan and k % 4: continue
             if ranges and s in ranges:
                 lo, hi = ranges[s]; v = sp.Rational(rnd.randint(int(lo * 1000), int(hi * 1000)), 1000)
             elif s.is_integer:
@@ -544,6 +638,23 @@ def sample_points(symbols, hyps, n, seed=0, witness=None, tries=4000, ranges=Non
             else: v = sp.Rational(rnd.randint(-4000, 4000), 1000)
             pt[s] = v
         ok = True
+        for s, (op, b) in plan.items():
+            if s in pt: continue
+            try:
+                bv = numeric(b, pt, 20)
+                if not bv.is_real: ok = False; break
+                bq = sp.Rational(int(sp.floor(bv * 1000)), 1000)
+                slack = sp.Rational(rnd.randint(1, 3000), 1000)
+                v = bq + slack + sp.Rational(1, 1000) if op in ('>', '>=') else bq - slack
+                if s.is_positive and v <= 0: ok = False; break
+                if s.is_negative and v >= 0: ok = False; break
+                pt[s] = v
+            except Exception:
+                ok = False; break
+        if not ok: continue
+        if any(s_ not in pt for s_ in symbols): continue
+        fv = [float(pt[s_]) for s_ in symbols]
+        if any(f is not None and not f(fv) for f in fast): continue
         for h in hyps:
             try:
                 if not eval_cond(h, pt): ok = False; break
